@@ -159,7 +159,7 @@ impl Prop for C11 {
         48
     }
     fn cases(&self, t: Tier) -> usize {
-        t.pick(40_000, 1_000_000)
+        t.pick(400_000, 30_000_000)
     }
     fn rule(&self) -> String {
         "tape-decoded feedback block: flat (dense n -> n or n -> m -> n, n 1..6) or spatial (1-2 shape-preserving convolution / deconvolution layers on c 1-3 x h,w 1-5), loops 1..4, the four skip-flag combinations, the five accumulations, followed or not by a dense layer, tied distinct weights set through the hooks, random inputs. Oracle: r1 = F(x), ri = F(acc(r(i-1); x)) with input skips else F(r(i-1)); output acc(rL; r1..r(L-1)) with output skips else rL; flattened when a dense layer follows - composed from the library's own single-layer forwards and tensor operations; compared to predict within 2 ulp (bit-identical on the current tree). Non-trivial: loops >= 2 or a skip flag set. Distinct = full block specification.".into()
